@@ -1038,7 +1038,11 @@ coap_oscore_decrypt_pdu(coap_session_t *session,
      * Requires in COSE object as appropriate
      *   partial_iv (as received)
      */
-    if (rcp_ctx->initial_state == 0 &&
+    /*
+     * Without Appendix B.1.2 there is no Echo exchange that starts the
+     * replay window later on, the first request has to do it here.
+     */
+    if ((rcp_ctx->initial_state == 0 || !osc_ctx->rfc8613_b_1_2) &&
         !oscore_validate_sender_seq(rcp_ctx, cose)) {
       coap_log_warn("OSCORE: Replayed or old message\n");
       build_and_send_error_pdu(session,
